@@ -214,9 +214,10 @@ def func_name_facts(ev: ast.Module):
     call_fallback = any("celpy.evaluation.host_function(activation, " in t for t in texts)
     op_fallback = any("activation.resolve_function(" in t for t in texts)
     unbound = any("CELEvalError('unbound function', KeyError" in t for t in texts)
-    uses_call_flag = all("call=True" in ast.unparse(n) for n in ast.walk(find_class(ev, "Phase1Transpiler"))
-                         if isinstance(n, ast.Call) and ast.unparse(n.func) == "self.func_name"
-                         and ("property_name_token" in ast.unparse(n) or ast.unparse(n).startswith("self.func_name(op")))
+    sites = [n for n in ast.walk(find_class(ev, "Phase1Transpiler"))
+             if isinstance(n, ast.Call) and ast.unparse(n.func) == "self.func_name" and n.args
+             and ast.unparse(n.args[0]) in ("property_name_token.value", "op")]
+    uses_call_flag = len(sites) >= 3 and all("call=True" in ast.unparse(n) for n in sites)
     hf = find_func(ev.body, "host_function")
     checks = "resolve_function(name)" in ast.unparse(hf) and any(
         isinstance(n, ast.For) and _returns_error_checks(ast.FunctionDef(name="x", args=None, body=n.body, decorator_list=[], lineno=0))
